@@ -7,7 +7,10 @@ L1: do_command_substitution (both passes, in-process: real fork/exec of helpers/
     Oracle: head ++ output-minus-trailing-newlines ++ tail, counter == 1.
 L1x: the whole do_expansion in a cwd populated with files that match the outputs (*, *.txt, a*, sub/*):
     the output must be inserted literally (pass order: glob before substitution).
-L2: argv of helpers/hp through `cicada -c`, in that populated cwd."""
+L2: argv of helpers/hp through `cicada -c`, in that populated cwd.
+L2a: substitutions in assignments (alone on the line, with other assignments, before a command, with export, at word
+    start / middle / end, inside double quotes) and in here-strings, both spellings: every counter file must hold
+    exactly one byte and the variable must hold the output (run_proc's assignment-only branch is glue outside the model)."""
 import itertools, os, re, shutil, subprocess, tempfile
 import common as C
 import expand_common as X
@@ -16,7 +19,7 @@ EXTRACT = ["C11"]
 BINS = ["c11"]
 NEEDS_CICADA = True
 ALLOWED_AXIOMS = []
-PINNED = ["C11_full", "C11_refuted", "C11_splices", "C11_splices_whole_word", "C11_index_buffer", "C11_partial", "C11_unplannable", "C11_terminates", "C11_output_not_globbed",
+PINNED = ["C11_full", "C11_refuted", "C11_splices", "C11_splices_whole_word", "C11_index_buffer", "C11_partial", "C11_unplannable", "C11_terminates", "C11_output_not_globbed", "C11_assignment_once",
           "C11_refuted_whitespace"]
 TRUSTED = [
     "Coq 8.16.1 kernel (coqc; coqchk in thorough); vm_compute only in concrete witnesses / non-vacuity examples",
@@ -368,5 +371,45 @@ def run(ctx, res):
             else:
                 violate(kind="oracle", layer="L2", input=line, expected=exp, observed=out, runs=n, failing_input=True,
                         note="argv of the helper is not the spliced word, or the inner command did not run exactly once")
+        # ------------------------------------------------------------ L2a: substitutions in ASSIGNMENTS and here-strings
+        # ("cmd runs exactly once": the counter file of every substitution written must hold exactly one byte, and the
+        # variable must hold the output afterwards).  run_proc's assignment-only branch is execute.rs glue outside
+        # Model/Expand.v: it is tied by this layer only.
+        l2a = []
+        for i in (0, 18):
+            o = strip_nl(OUTS[i])
+
+            def sub(k, spelling):
+                c, cnt = cmd(k)
+                return ("$(%s)" % c if spelling == "d" else "`%s`" % c), cnt
+
+            for sp in ("d", "b"):
+                w, n1 = sub(i, sp); l2a.append(('X=%s' % w, None, [n1]))
+                w, n1 = sub(i, sp); l2a.append(('X=%s; %s @o "$X"' % (w, hp), [o], [n1]))
+                w, n1 = sub(i, sp); l2a.append(('Y=7 X=%s; %s @o "$X" $Y' % (w, hp), [o, "7"], [n1]))
+                w, n1 = sub(i, sp); l2a.append(('Y=7 X=%s' % w, None, [n1]))
+                w, n1 = sub(i, sp); l2a.append(('X=%s %s @o k' % (w, hp), ["k"], [n1]))
+                w, n1 = sub(i, sp); l2a.append(('export X=%s; %s @o "$X"' % (w, hp), [o], [n1]))
+                w, n1 = sub(i, sp); l2a.append(('%s @r,o k <<< %s' % (hp, w), ["k"], [n1]))
+                w, n1 = sub(i, sp); l2a.append(('X=pre%s; %s @o "$X"' % (w, hp), ["pre" + o], [n1]))
+                w, n1 = sub(i, sp); l2a.append(('X=%spost; %s @o "$X"' % (w, hp), [o + "post"], [n1]))
+                w, n1 = sub(i, sp); l2a.append(('X=pre%spost; %s @o "$X"' % (w, hp), ["pre" + o + "post"], [n1]))
+                w, n1 = sub(i, sp); l2a.append(('X="a %s b"; %s @o "$X"' % (w, hp), ["a " + o + " b"], [n1]))
+                w, n1 = sub(i, sp); l2a.append(('X="%s"' % w, None, [n1]))
+                w1, n1 = sub(i, sp); w2, n2 = sub(0, sp)
+                l2a.append(('X=%s Y=%s; %s @o "$X" "$Y"' % (w1, w2, hp), [o, strip_nl(OUTS[0])], [n1, n2]))
+                w1, n1 = sub(i, sp); w2, n2 = sub(0, sp)
+                l2a.append(('X=%s Y=%s' % (w1, w2), None, [n1, n2]))
+        with ThreadPoolExecutor(max_workers=8) as ex:
+            outs_a = list(ex.map(one, [(l,) for l, _, _ in l2a]))
+        res.count("L2a_assignments_here_strings", len(l2a))
+        for (line, exp, cnts), out in zip(l2a, outs_a):
+            runs = [os.path.getsize(c) if os.path.exists(c) else 0 for c in cnts]
+            ok_out = exp is None or out == "\n".join(exp) + "\n"
+            res.nontrivial("l2a:" + line.replace(work, "W"))
+            if not ok_out or any(r != 1 for r in runs):
+                violate(kind="oracle", layer="L2a", input=line.replace(work, "W"), expected={"argv": exp, "runs": [1] * len(cnts)},
+                        observed={"stdout": out, "runs": runs}, failing_input=True,
+                        note="a substitution in an assignment / here-string must run exactly once and its output must be the value")
     finally:
         shutil.rmtree(work, ignore_errors=True)
